@@ -7,6 +7,8 @@ import (
 	"sort"
 	"strings"
 	"testing"
+
+	"simrt/simfs"
 )
 
 // C18 — module paths resolve as documented, consistently across features, and the answer
@@ -137,6 +139,27 @@ func genC18(seed int64, tier string) *Scenario {
 			sc.Ops = append(sc.Ops, Op{Kind: "fswrite", Path: p, Data: Bytes("local M = {}\nreturn M\n")}, Op{Kind: "deliver"})
 		}
 		sc.Ops = append(sc.Ops, Op{Kind: "check"})
+	}
+	if r.Intn(3) == 0 {
+		// a transient read fault while the server handles a change event for a module that still
+		// exists (editor saving non-atomically, flaky mount); once the fault is gone and the file is
+		// touched again everything must be as on a fresh start
+		var mods []string
+		for p := range exists {
+			if p != mainPath && strings.HasSuffix(p, ".lua") {
+				mods = append(mods, p)
+			}
+		}
+		sort.Strings(mods)
+		if len(mods) > 0 {
+			m := mods[r.Intn(len(mods))]
+			kind := []string{"eio", "eacces", "enoent", "torn"}[r.Intn(4)]
+			sc.Ops = append(sc.Ops,
+				Op{Kind: "faults", Faults: []simfs.Fault{{Op: "ReadFile", Suffix: m, Nth: 1, Kind: kind, Arg: 3}}},
+				Op{Kind: "fswrite", Path: m, Data: Bytes("local M = {}\nM.changed = 1\nreturn M\n")}, Op{Kind: "deliver"},
+				Op{Kind: "clearfaults"}, Op{Kind: "touch", Path: m}, Op{Kind: "check"})
+			sc.Knobs["fault"] = kind
+		}
 	}
 	return sc
 }
